@@ -54,7 +54,7 @@ type hWrap struct {
 	dump   string
 }
 
-const c17CallWatchdog = 25 * time.Second
+const c17CallWatchdog = 15 * time.Second
 
 // state is Result() through the watchdog ("running", a terminal descriptor, BLOCKED or SKIPPED).
 func (w *hWrap) state() string {
@@ -80,17 +80,40 @@ func (w *hWrap) do(proc int, op string, f func() string) string {
 		}()
 		o = f()
 	}()
-	select {
-	case out = <-done:
-	case <-time.After(c17CallWatchdog):
-		if atomic.CompareAndSwapInt32(&w.wedged, 0, 1) {
+	// A call is BLOCKED only when it is provably so: two consecutive dumps, taken c17CallWatchdog apart, in which every
+	// goroutine inside a handler method is parked and none is active.  A slow call (CMP under the race detector on a
+	// loaded machine) keeps being waited for; the hard cap ends in an inconclusive TIMEOUT.
+	provable := 0
+waiting:
+	for round := 0; ; round++ {
+		select {
+		case out = <-done:
+			break waiting
+		case <-time.After(c17CallWatchdog):
 			buf := make([]byte, 1<<20)
 			k := runtime.Stack(buf, true)
-			w.mu.Lock()
-			w.dump = string(buf[:k])
-			w.mu.Unlock()
+			d := string(buf[:k])
+			pk, act := handlerGoroutines(d)
+			if pk > 0 && act == 0 {
+				provable++
+			} else {
+				provable = 0
+			}
+			if provable >= 2 {
+				if atomic.CompareAndSwapInt32(&w.wedged, 0, 1) {
+					w.mu.Lock()
+					w.dump = d
+					w.mu.Unlock()
+				}
+				out = "BLOCKED"
+				break waiting
+			}
+			if round > 60 {
+				atomic.StoreInt32(&w.wedged, 1)
+				out = "TIMEOUT"
+				break waiting
+			}
 		}
-		out = "BLOCKED"
 	}
 	ret := atomic.AddInt64(w.clock, 1)
 	w.mu.Lock()
@@ -340,6 +363,9 @@ func c17Run(t *vk.T, pl c17Plan, idx int) {
 	}()
 	// wait for the session to end: all handlers terminal and inboxes empty, or a generous wall-clock bound
 	deadline := time.Now().Add(4 * time.Minute)
+	if pl.proto == "cmp-sign" {
+		deadline = time.Now().Add(15 * time.Minute)
+	}
 	ended := false
 	for time.Now().Before(deadline) {
 		all := true
@@ -406,8 +432,10 @@ func c17Run(t *vk.T, pl c17Plan, idx int) {
 			blocked = true
 		}
 	}
-	for _, p := range pools {
-		p.TearDown()
+	if !blocked && ended {
+		for _, p := range pools {
+			p.TearDown() // only when nothing can still be using them
+		}
 	}
 	t.Obs("evaluations", 1)
 	tag := fmt.Sprintf("%s feeders=%d stop=%s at %q post=%d", pl.proto, pl.feeders, pl.stopAt, stopTarget, pl.post)
@@ -415,15 +443,35 @@ func c17Run(t *vk.T, pl c17Plan, idx int) {
 		t.Inconclusive("%s: session did not end within the wall-clock bound", tag)
 	}
 	if blocked {
-		buf := make([]byte, 1<<20)
-		k := runtime.Stack(buf, true)
-		d := string(buf[:k])
-		if strings.Contains(d, "pkg/protocol.(*MultiHandler)") || strings.Contains(d, "pkg/protocol.(*TwoPartyHandler)") {
-			t.Violation(pl.proto+"|call-blocked-forever|stop="+pl.stopAt, "%s: a goroutine is still parked inside a handler call (or the outgoing channel never closed after Stop) while the channel is being drained", tag)
-		} else {
-			t.Inconclusive("%s: goroutines did not finish", tag)
+		// logical decision: every goroutine inside a handler method is parked, none is making progress, in 5 consecutive dumps
+		stable := 0
+		for k := 0; k < 60 && stable < 5; k++ {
+			buf := make([]byte, 1<<20)
+			kk := runtime.Stack(buf, true)
+			pk, act := handlerGoroutines(string(buf[:kk]))
+			if pk > 0 && act == 0 {
+				stable++
+			} else {
+				stable = 0
+				select {
+				case <-finishWait:
+					blocked = false
+				default:
+				}
+				if !blocked {
+					break
+				}
+			}
+			time.Sleep(500 * time.Millisecond)
 		}
-		return
+		if blocked && stable >= 5 {
+			t.Violation(pl.proto+"|call-blocked-forever|stop="+pl.stopAt, "%s: a goroutine is still parked inside a handler call (or the outgoing channel never closed after Stop) while the channel is being drained", tag)
+			return
+		}
+		if blocked {
+			// not provably blocked: the recorded histories are still judged below (e.g. a channel that never closes)
+			t.Inconclusive("%s: goroutines did not finish within the wall-clock bound (still active, no provable block)", tag)
+		}
 	}
 	// ---- offline checks over the histories
 	for _, id := range ids {
@@ -438,12 +486,19 @@ func c17Run(t *vk.T, pl c17Plan, idx int) {
 				ww.mu.Lock()
 				d := ww.dump
 				ww.mu.Unlock()
-				parked := strings.Contains(d, "sync.(*Mutex).Lock") && (strings.Contains(d, "pkg/protocol.(*MultiHandler)") || strings.Contains(d, "pkg/protocol.(*TwoPartyHandler)"))
-				if parked {
+				pk, act := handlerGoroutines(d)
+				_ = act
+				if pk > 0 {
 					t.Violation(pl.proto+"|call-blocked-forever|"+o.Op+"|stop="+pl.stopAt, "%s: %s on %q never returned: the goroutine dump shows callers parked on the handler's mutex while the outgoing channel is being drained", tag, o.Op, id)
 				} else {
 					t.Inconclusive("%s: %s on %q did not return within the watchdog, without a provable block", tag, o.Op, id)
 				}
+				break
+			}
+		}
+		for _, o := range ops {
+			if o.Out == "TIMEOUT" {
+				t.Inconclusive("%s: %s on %q exceeded the hard wall-clock cap while still active", tag, o.Op, id)
 				break
 			}
 		}
@@ -459,7 +514,7 @@ func c17Run(t *vk.T, pl c17Plan, idx int) {
 			}
 		}
 		final := ww.state()
-		if closedTs == 0 && final != "running" && final != "BLOCKED" && final != "SKIPPED" {
+		if closedTs == 0 && final != "running" && final != "BLOCKED" && final != "SKIPPED" && final != "TIMEOUT" {
 			t.Violation(pl.proto+"|terminal-but-channel-open|stop="+pl.stopAt, "%s: %q is terminal (%s) but its outgoing channel was never closed", tag, id, truncStr(final, 60))
 		}
 		for _, o := range ops {
@@ -485,7 +540,7 @@ func c17Run(t *vk.T, pl c17Plan, idx int) {
 		for _, o := range ops {
 			switch o.Op {
 			case "result", "accept", "stop":
-				if strings.HasPrefix(o.Out, "PANIC") || o.Out == "BLOCKED" || o.Out == "SKIPPED" {
+				if strings.HasPrefix(o.Out, "PANIC") || o.Out == "BLOCKED" || o.Out == "SKIPPED" || o.Out == "TIMEOUT" {
 					continue
 				}
 				pops = append(pops, porcupine.Operation{ClientId: o.Proc % 100, Input: o.Op, Call: o.Call, Output: o.Out, Return: o.Ret})
@@ -530,6 +585,33 @@ func c17Run(t *vk.T, pl c17Plan, idx int) {
 		w0.mu.Unlock()
 		t.Sample(map[string]any{"protocol": pl.proto, "feeders": pl.feeders, "stop": pl.stopAt, "api_events_party0": nops, "history_prefix": first})
 	}
+}
+
+// handlerGoroutines classifies the goroutines of a dump that are inside handler methods: parked for good on the
+// handler's mutex / channel, or active (running, runnable, in a syscall, or sleeping in library code they called).
+func handlerGoroutines(dump string) (parked, active int) {
+	for _, g := range strings.Split(dump, "\n\n") {
+		if !strings.Contains(g, "pkg/protocol.(*MultiHandler)") && !strings.Contains(g, "pkg/protocol.(*TwoPartyHandler)") {
+			continue
+		}
+		m := stateRe.FindStringSubmatch(g)
+		if m == nil {
+			continue
+		}
+		st := m[1]
+		switch {
+		case strings.HasPrefix(st, "sync.Mutex.Lock"), strings.HasPrefix(st, "semacquire"), strings.HasPrefix(st, "chan send"), strings.HasPrefix(st, "chan receive"):
+			// parked inside library code below the handler (e.g. a pool call) is activity of the lock holder, not a block
+			if strings.Contains(g, "pkg/pool.") {
+				active++
+			} else {
+				parked++
+			}
+		default:
+			active++
+		}
+	}
+	return
 }
 
 // lifecycleModel: state "R" (running) or "T:<value>" (terminal; "T:?" = terminal, value not yet observed).
